@@ -312,3 +312,7 @@ func vc_C05_orientation() {
 		}
 	}
 }
+
+// closedness of octree meshes also needs the octree to cover the (padded) box
+// and to hand every cell the values of its own corners: registered from C07.
+func vc_C05_octree_covers_box() { vc_C07_octree_covers_box() }
